@@ -320,3 +320,31 @@ def install_outval_hook():
         return True
 
     Survey.insert_output_values = icontract.ensure(literal_text_preserved, error=OutvalBroken)(Survey.insert_output_values)
+
+
+# ----------------------------------------------------------------------------- H-dyn
+def install_dyn_hook(classifier):
+    """Record utils.default_is_dynamic's answers and compare with an independent classifier on unambiguous inputs."""
+    if "dyn" in _installed or not _guard():
+        return
+    _installed.add("dyn")
+    import icontract
+    import pyxform.utils as U
+
+    class DynBroken(Exception):
+        pass
+
+    orig = U.default_is_dynamic
+
+    def agrees_with_classifier(element_default, result, element_type=None):
+        _bump("dyn")
+        if not element_default or not isinstance(element_default, str):
+            return True
+        want = classifier(element_default, element_type)
+        if want is not None and (want == "dynamic") != bool(result):
+            _note("dyn_violations", f"default_is_dynamic({element_default!r}, {element_type!r}) = {result}, independent classifier says {want}")
+        return True
+
+    wrapped = icontract.ensure(agrees_with_classifier, error=DynBroken)(orig)
+    U.default_is_dynamic = wrapped
+    rebind_everywhere(orig, wrapped)
